@@ -9,7 +9,7 @@ import sys
 import time
 
 VERIF = os.path.dirname(os.path.dirname(os.path.abspath(__file__)))
-MODULES = ["contracts.c04_periods", "contracts.engine", "contracts.c03_requests", "contracts.c06_parameters", "contracts.c16_set_input", "contracts.c13_clone", "contracts.c14_reforms", "contracts.c18_engine", "contracts.c17_storage", "contracts.c15_enums", "contracts.c10_groups", "contracts.c07_views", "contracts.c19_dump", "contracts.c08_taxscales"]
+MODULES = ["contracts.c04_periods", "contracts.engine", "contracts.c03_requests", "contracts.c06_parameters", "contracts.c16_set_input", "contracts.c13_clone", "contracts.c14_reforms", "contracts.c18_engine", "contracts.c17_storage", "contracts.c15_enums", "contracts.c10_groups", "contracts.c07_views", "contracts.c19_dump", "contracts.c08_taxscales", "contracts.c09_transforms"]
 
 CAL_THEORY = "calendar (OM/DIM opaque, lemma instances; closed forms = Hinnant days-from-civil), validated against datetime"
 
@@ -24,8 +24,20 @@ PROPS = {
             "numpy contracts used: tile, .T, outer, minimum / maximum with +inf, column slices, dot as a sum over the inner index, sum(axis=1); validated against numpy on every run",
             "threshold factors are positive",
         ],
-        "not_decided": ["rounding options (round_base_decimals / round_decimals): numpy.round is not modelled",
+        "not_decided": ["what numpy.round computes (it is an uninterpreted function here: the rounding cases pin down where rounding is applied, not its value)",
                         "NaN / inf bases, empty scales, result dtypes"],
+    },
+    "C09": {
+        "theories": ["tax-scale mathematics over the reals (DESIGN 3.4); closure lists; finite sums by induction"],
+        "lemmas": [],
+        "validations": [],
+        "assumptions": [
+            "floats are reals (no rounding: the decimals option of multiply_thresholds is not decided)",
+            "operand scales are well formed: thresholds strictly increasing, as many rates as thresholds",
+            "the law reaches calc() through C08's MarginalRateCalc contract (calc = sum over brackets of rate x part of the base in the bracket) and the sum lemmas",
+            "for-loops over a list iterate the list as it was when the loop started (none of the loops here changes an element ahead of the cursor)",
+        ],
+        "not_decided": [],
     },
     "C19": {
         "theories": ["file system as a ghost map path -> array; storage view of C17"],
